@@ -1,19 +1,28 @@
 """C16 — rejected declarations leave no trace."""
 from vlib import world as W, regops as R, regworld as RW, core
 import props.C15 as C15
+import props.C11 as C11
 
 PID = 'C16'
 PROPERTY_FILE = 'Properties/C16.v'
 # generated model parts (translate/) this property's model / proofs really depend on
 GEN_DEPS = []
 MODEL_TARGETS = R.MODEL_TARGETS
-PROOF_TARGETS = ['Proofs/C15Proofs.vo']
+PROOF_TARGETS = ['Proofs/C15Proofs.vo', 'Proofs/C11Proofs.vo']
 COQ_HEADER = R.COQ_HEADER
 COQ_CHECK = R.COQ_CHECK
 ISOLATE = True
 SHARD = 300
-coq_case = R.coq_case
-coq_model_term = R.coq_model_term
+
+
+def coq_case(case, r):
+    if case.get('k') == 'conv':
+        return None        # the converter's model is C11's (Proofs/C11Proofs.vo is an obligation here)
+    return R.coq_case(case, r)
+
+
+def coq_model_term(case, r):
+    return R.coq_model_term(case, r)
 RULE = ("declaration histories of 4-22 steps with faults injected at random positions (about "
         "35 % of the steps: duplicate / empty symbol, dimension already taken with and without "
         "an own reference symbol, definition of another type or dimension, wrong base units, "
@@ -23,7 +32,9 @@ RULE = ("declaration histories of 4-22 steps with faults injected at random posi
         "'1 sym', and products / quotients of the units involved in rejected steps.  Every history is run twice in fresh processes: as given, and with the "
         "rejected steps left out (the twin); the oracle demands identical observations and "
         "identical outcomes of all later steps.  The model runs the history as given.  "
-        "Rejected updates of a money converter are covered by C11 (C11_failed_update_unchanged). "
+        "Rejected updates of a money converter: update histories with rejected updates (invalid "
+        "validity, mixed kinds, bad entries; also as the very first update) through C11's harness, "
+        "model and oracle (theorem C11_failed_update_unchanged). "
         "non-trivial = at least one step was rejected; distinct by script.")
 ASSUMPTIONS = C15.ASSUMPTIONS
 EXHAUSTIVE = {}
@@ -63,10 +74,16 @@ def gen_cases(rng, tier):
                 probes.append([rng.choice(['mul', 'div']), ['u', rng.choice(us)], ['u', rng.choice(us)]])
         cases.append({'dm': rng.choice(W.MODES), 'pre': False, 'script': script, 'hist': probes[:8],
                       'late': late, 'q': C15._dirq(w, script + late)})
+    # rejected updates of a money converter (C11's harness and independent oracle)
+    for i in range(20 if tier == 'quick' else 200):
+        sc = C11.gen_script_rejected_first(rng) if i % 2 else C11.gen_script(rng)
+        cases.append({'k': 'conv', 'c': sc})
     return cases
 
 
 def impl_run(case):
+    if case.get('k') == 'conv':
+        return {'conv': C11.impl_run(case['c'])}
     tag, full = core.run_isolated(R.impl_run, case)
     if tag != 'ok':
         raise RuntimeError(full)
@@ -80,6 +97,11 @@ def impl_run(case):
 
 
 def oracle(case, r):
+    if case.get('k') == 'conv':
+        msg = C11.oracle(case['c'], r['conv'])
+        # what C11 lists as known findings (identity rate, unrepresentable derived rate)
+        # concerns the reported rate, not traces of rejected updates
+        return None if msg and C11.classify(case['c'], r['conv'], msg) else msg
     merged = dict(case, script=case['script'] + case['late'])
     msg = C15.oracle(merged, dict(r, steps=r['steps'] + r['late']))
     if msg:
@@ -106,11 +128,15 @@ def oracle(case, r):
 
 
 def labels(case, r):
+    if case.get('k') == 'conv':
+        return ['kind=converter-updates']
     return C15.labels(case, r) + ['rejected=%d' % sum(1 for s in r['steps'] if s is not None),
                                   'redeclared=%d' % len(case['late'])]
 
 
 def nontrivial_key(case, r):
+    if case.get('k') == 'conv':
+        return str(case['c']['steps'])
     if any(s is not None for s in r['steps']):
         return str(case['script'])
     return None
